@@ -318,6 +318,89 @@ type omapCase struct {
 	Seed       int64    `json:"seed"`
 	// Program, if given, fixes the operations: program[round][goroutine] = list of [op,k,v]
 	Program [][][][3]string `json:"program"`
+	// Stress > 0: one writer puts this many NEW keys on top (SetToTop) or at the end (Set) while two readers serialise the
+	// collection; every serialisation is checked on the spot: no key twice, and every key whose insertion had returned
+	// before the serialisation began is there
+	Stress int `json:"stress"`
+}
+
+type stressObs struct {
+	ID       string `json:"id"`
+	Kind     string `json:"kind"`
+	Reads    int    `json:"reads"`
+	DupReads int    `json:"dup_reads"`
+	Missing  int    `json:"missing_reads"`
+	Example  string `json:"example,omitempty"`
+	Panic    string `json:"panic,omitempty"`
+}
+
+func stress(c omapCase, m coll, emit func(interface{})) {
+	o := &stressObs{ID: c.ID, Kind: c.Kind}
+	var done int64 // number of insertions that have returned
+	var stop int32
+	var mu sync.Mutex
+	var wg sync.WaitGroup
+	for r := 0; r < 2; r++ {
+		wg.Add(1)
+		go func() {
+			defer wg.Done()
+			defer func() {
+				if x := recover(); x != nil {
+					mu.Lock()
+					o.Panic = fmt.Sprint(x)
+					mu.Unlock()
+				}
+			}()
+			for atomic.LoadInt32(&stop) == 0 {
+				before := atomic.LoadInt64(&done)
+				keys := strings.Split(m.JSONKeys(), ",")
+				seen := map[string]bool{}
+				dup := ""
+				for _, k := range keys {
+					if seen[k] {
+						dup = k
+					}
+					seen[k] = true
+				}
+				missing := ""
+				for i := int64(0); i < before; i++ {
+					if !seen["s"+itoa(int(i))] {
+						missing = "s" + itoa(int(i))
+						break
+					}
+				}
+				mu.Lock()
+				o.Reads++
+				if dup != "" {
+					o.DupReads++
+					if o.Example == "" {
+						o.Example = "key " + dup + " twice among " + itoa(len(keys))
+					}
+				}
+				if missing != "" {
+					o.Missing++
+					if o.Example == "" {
+						o.Example = "key " + missing + " (inserted before the read began) is absent"
+					}
+				}
+				mu.Unlock()
+			}
+		}()
+	}
+	for i := 0; i < c.Stress; i++ {
+		if i%2 == 0 {
+			m.SetToTop("s"+itoa(i), i)
+		} else {
+			m.Set("s"+itoa(i), i)
+		}
+		atomic.AddInt64(&done, 1)
+		if i%8 == 0 {
+			runtime.Gosched()
+		}
+	}
+	atomic.StoreInt32(&stop, 1)
+	wg.Wait()
+	emit(o)
 }
 
 type event struct {
@@ -351,6 +434,10 @@ func cmdOmap(line []byte, emit func(interface{})) {
 	m := newColl(c.Kind)
 	if m == nil {
 		emit(map[string]string{"harness_error": "unknown collection " + c.Kind})
+		return
+	}
+	if c.Stress > 0 {
+		stress(c, m, emit)
 		return
 	}
 	o := &omapObs{ID: c.ID, Kind: c.Kind}
